@@ -38,7 +38,7 @@ def build(tier):
 
 def gen_cases(tier, seed):
     rng = random.Random(seed * 1000003 + (3 if PID == "c03" else 7))
-    n_sess, n_one, n_big = {"quick": (125, 10, 3), "search": (400, 30, 10), "thorough": (400, 40, 40)}[tier]
+    n_sess, n_one, n_big = {"quick": (100, 8, 3), "search": (400, 30, 10), "thorough": (400, 40, 40)}[tier]
     cases = [{"kind": "session", "seed": rng.randrange(1 << 48), "tier": tier} for _ in range(n_sess)]
     cases += [{"kind": "oneshot", "seed": rng.randrange(1 << 48), "tier": tier, "count": 4} for _ in range(n_one)]
     cases += [{"kind": "session", "seed": rng.randrange(1 << 48), "tier": tier, "big": True} for _ in range(n_big)]
